@@ -14,7 +14,7 @@ PROPS = {
                 relevant={"pub", "pull", "sread", "stats", "sopen"}),
     "C02": dict(module="Deltio.Props.C02", conc=[("mix", 120, 5000), ("abandonpull", 80, 2000)], trace_kinds={"ack"}, seq=[("data", 250, 10000, 50)], pure=["tracker", "ackids"],
                 relevant={"ack", "ssend", "pull", "sread", "stats"}),
-    "C03": dict(module="Deltio.Props.C03", conc=[("mix", 120, 5000), ("cancel", 80, 3000), ("abandonpull", 60, 2000)], trace_kinds={"pull", "expire", "modify", "ack"}, seq=[("data", 250, 10000, 50), ("batches", 40, 1500, 40)], pure=["tracker"],
+    "C03": dict(module="Deltio.Props.C03", conc=[("mix", 120, 5000), ("cancel", 80, 3000), ("abandonpull", 60, 2000)], trace_kinds={"pull", "expire", "modify", "ack"}, seq=[("data", 250, 10000, 50), ("batches", 40, 1500, 40), ("bigmsg", 1, 6, 0)], pure=["tracker"],
                 relevant={"pull", "sread"}),
     "C04": dict(module="Deltio.Props.C04", conc=[("mix", 60, 3000), ("abandonpull", 100, 3000)], trace_kinds={"pull", "expire"}, seq=[("deadlines", 300, 12000, 50), ("general", 200, 6000, 40)], pure=["rounds", "tracker"],
                 relevant={"pull", "sread", "stats", "adv", "clock", "csub"}),
